@@ -10,7 +10,7 @@ at db accesses of a running operation.
 """
 from trie import HexaryTrie
 
-from ..core import HarnessError, Violation, hx, unhx
+from ..core import HarnessError, Violation, deep, hx, unhx
 from ..hgen import HistoryGen, make_pool, make_values, probe_keys
 from ..hworld import HWorld
 from ..models.mpt import BLANK_ROOT, RefMPT
@@ -338,7 +338,7 @@ def generate(rng):
     streams = []
     for i in range(nh):
         g = HistoryGen(rng, pool, values, probes, batches=True, aborts=True, reopen=True, lookups=(0, 1), handle=i)
-        streams.append(g.history(rng.choice([4, 8, 12, 20, 30]) // (1 if nh == 1 else 2) + 2))
+        streams.append(g.history(rng.choice(deep([4, 8, 12, 20, 30], [8, 16, 30, 50, 80])) // (1 if nh == 1 else 2) + 2))
     # seeded interleaving that preserves each actor's own order
     cmds = []
     idx = [0] * nh
